@@ -380,6 +380,34 @@ theorem c16_skeleton_length_guard_witness :
       (Spec.HavokTag.encode ⟨0xFFFF, 1⟩ datalessFile)) = .panic := by
   decide +kernel
 
+/-! ### recorded finding `havok-int-beyond-i32` -/
+
+/-- the standard skeleton file whose animation container has `referenceCount = 2^40` (Havok INT members
+can hold 64-bit values; six bytes in the packed encoding) -/
+def wideFile : Spec.HavokTag.TagFile :=
+  open Spec.HavokTag in
+  stdTypes.map Item.type ++
+  [.obj 1 [.structs 1 [.strs [n_hkaAnimationContainer], .strs [n_hkaAnimationContainer], .refs [2]]],
+   .obj 5 [.absent, .int (2 ^ 40), .refs [3], .absent, .absent, .absent, .absent],
+   .obj 6 [.absent, .absent, .str [115, 107], .ints 0 [-1, 0],
+     .structs 2 [.strs [[110, 95, 114, 111, 111, 116], [110, 95, 104, 97, 114, 97]], .bytes [0, 1]],
+     .vecs [[0, 0, 0, 0, 0, 0, 0, 0x3F800000, 0x3F800000, 0x3F800000, 0x3F800000, 0],
+            [0x3F800000, 0, 0, 0, 0, 0, 0, 0x3F800000, 0x3F800000, 0x3F800000, 0x3F800000, 0]],
+     .absent, .absent, .absent, .absent]]
+
+/-- The finding on a concrete input: a well-formed file that describes two bones and stores one INT
+value outside `i32`; `read_packed_int` keeps a `u32` and shifts by 34 on the sixth byte (overflow
+panic in the profile the tests use; a wrapped shift and a garbage value otherwise). -/
+theorem c16_skeleton_wide_int_witness :
+    Spec.HavokTag.wf wideFile = true ∧ Spec.HavokTag.usesUnimplemented [] wideFile = false ∧
+    Spec.HavokTag.usesWideInt wideFile = true ∧
+    (Spec.HavokTag.bonesOf wideFile).map (·.map (·.name)) =
+      some [[110, 95, 114, 111, 111, 116], [110, 95, 104, 97, 114, 97]] ∧
+    Spec.HavokTag.encodePackedInt (2 ^ 40) = [0x80, 0x80, 0x80, 0x80, 0x80, 0x40] ∧
+    Sklb.fromExisting (Spec.Sklb.encode ⟨Spec.Sklb.vOld, 0, 0, 101, 0, 0, 0, []⟩
+      (Spec.HavokTag.encode ⟨0xFFFF, 1⟩ wideFile)) = .panic := by
+  decide +kernel
+
 end Physis.C16
 
 /-! ## pre-bone deformer, byte level (`src/pbd.rs`, `strings_parser`) — completes `c16_pbd_chain_partial`
